@@ -163,11 +163,59 @@ class history {
     nops = a.num("ops", 300);
     if (uni.keys.size() > 600) nops *= 3;
     scan_rate = a.dbl("scanrate", g_prop == "C02" ? 0.35 : 0.06);
+    if (a.num("full256", 1) != 0 && r.chance(0.07)) make_full256();
     tag = std::string(I::name) + "." + keyconv<K>::name;
     if constexpr (I::olc) with_companion = a.num("companion", 1) != 0 && r.chance(0.5);
   }
 
   bool poisoned{false};
+
+  // "full256": one inner node with a child under every one of the 256 byte values (the 8-bit child counter wraps to 0
+  // there), filled completely, cleared / destroyed while full, and crossing 255 <-> 256 in both directions
+  void make_full256() {
+    uni = vu::universe{};
+    uni.u64 = !std::is_same_v<K, unodb::key_view>;
+    uni.family = "full256";
+    uni.sh = vu::shape::FIXED;
+    uni.len = 8;
+    uni.alpha.assign(8, {});
+    const bytes base = vm::u64_key(r.next());
+    const auto pos = r.below(8);
+    for (std::size_t i = 0; i < 8; ++i) uni.alpha[i].push_back(static_cast<unsigned char>(base[i]));
+    uni.alpha[pos].clear();
+    for (unsigned v = 0; v < 256; ++v) {
+      bytes k = base;
+      k[pos] = static_cast<char>(v);
+      uni.keys.push_back(k);
+      uni.alpha[pos].push_back(static_cast<unsigned char>(v));
+    }
+    if (pos < 7) {  // a few branches carry a second key, so some of the 256 children are inner nodes
+      const auto extra = r.below(5);
+      for (u64 i = 0; i < extra; ++i) {
+        bytes k = base;
+        k[pos] = static_cast<char>(r.below(256));
+        const auto p2 = pos + 1 + r.below(7 - pos);
+        k[p2] = static_cast<char>(static_cast<unsigned char>(k[p2]) ^ (1U + static_cast<unsigned>(r.below(255))));
+        uni.keys.push_back(k);
+        uni.alpha[p2].push_back(static_cast<unsigned char>(k[p2]));
+      }
+    }
+    std::sort(uni.keys.begin(), uni.keys.end(), vm::byte_less{});
+    uni.keys.erase(std::unique(uni.keys.begin(), uni.keys.end()), uni.keys.end());
+    nops = std::max<std::size_t>(nops, 1000);
+    full256 = true;
+  }
+
+  // the first absent key of the universe at or after a random position (full256 fill steps)
+  bool pick_absent(bytes* out) {
+    const auto n = uni.keys.size();
+    const auto start = r.below(n);
+    for (std::size_t i = 0; i < n; ++i) {
+      const auto& k = uni.keys[(start + i) % n];
+      if (model.count(k) == 0) { *out = k; return true; }
+    }
+    return false;
+  }
 
   void run() {
     const std::size_t base_bytes = vm::alloc_tracker::get().bytes_live();
@@ -188,6 +236,7 @@ class history {
       held.clear();
       if (ok && comp != nullptr) { vm::alloc_tracker::scoped_ignore ig; comp->stop(); delete comp; comp = nullptr; }  // after a violation: leaked with the index
       dbp = nullptr;
+      if (ok && full256 && model.size() == uni.keys.size()) rep().count("destroyed_with_completely_full_I256");
       if (ok) delete db;
       else poisoned = true;
     }
@@ -226,6 +275,21 @@ class history {
     return 2;
   }
 
+  // full256 histories: fill to the brim, stay around the 255/256 boundary (single removes and re-inserts, clear while
+  // full), and refill at the end so that the destructor meets the full node too. Returns false for "an ordinary step".
+  bool full256_step(int x) {
+    const bool full = model.size() == uni.keys.size();
+    const bool closing = op + 300 >= nops;
+    if (!full && (closing || x < 80)) { force_absent = true; do_insert(); return true; }
+    if (full) {
+      rep().count("steps_on_completely_full_I256");
+      if (x < 25) { do_remove(); return true; }   // 256 -> 255
+      if (x < 32 && !closing) { do_clear(); if (comp == nullptr) rep().count("clears_of_completely_full_I256"); return true; }
+      if (closing) { do_get(); return true; }
+    }
+    return false;
+  }
+
   bytes random_value() {
     const auto m = r.below(100);
     std::size_t n = m < 10 ? 0 : (m < 80 ? 1 + r.below(24) : (m < 99 ? r.below(301) : 65536));
@@ -246,7 +310,8 @@ class history {
     const int pk = phase_kind();
     static const int w_ins[3] = {62, 10, 36}, w_rem[3] = {8, 62, 36};
     const auto x = static_cast<int>(r.below(100));
-    if (x < w_ins[pk]) do_insert();
+    if (full256 && full256_step(x)) {
+    } else if (x < w_ins[pk]) do_insert();
     else if (x < w_ins[pk] + w_rem[pk]) do_remove();
     else if (x < 94) do_get();
     else if (x < 97) do_empty();
@@ -295,6 +360,7 @@ class history {
   void do_insert() {
     if (comp != nullptr) deferred_possible = true;
     bytes k = r.chance(0.12) && !model.empty() ? pick_present() : r.pick(uni.keys);
+    if (force_absent) { force_absent = false; (void)pick_absent(&k); }
     if (!admissible_after_insert(k)) { rep().count("inadmissible_steps_replaced"); return do_get(); }
     const bytes v = random_value();
     const bool want = model.count(k) == 0;
@@ -769,6 +835,7 @@ class history {
   unsigned classes_seen{0}, deepest{0};
   int scan_samples{0};
   std::size_t base_live{vm::alloc_tracker::get().bytes_live()};
+  bool full256{false}, force_absent{false};
   bool with_companion{false};
   bool deferred_possible{false};  // something may have been retired since the last drain
   companion* comp{nullptr};
